@@ -143,6 +143,7 @@ func Authenticate(ab *authboss.Authboss, w http.ResponseWriter, req **http.Reque
 	*req = (*req).WithContext(context.WithValue((*req).Context(), authboss.CTXKeySessionState, halfAuthedState{cs: state, pid: pid}))
 	authboss.PutSession(w, authboss.SessionKey, pid)
 	authboss.PutSession(w, authboss.SessionHalfAuthKey, "true")
+	authboss.DelSession(w, authboss.Session2FA)
 	authboss.DelCookie(w, authboss.CookieRemember)
 	authboss.PutCookie(w, authboss.CookieRemember, token)
 
